@@ -153,6 +153,7 @@ func c18Builders(p *Prog, r *Report) {
 		})
 	}
 	c18PointerToInterface(p, r)
+	c18CustomJSONGuards(p, r, "T5g")
 	r.Floor("R6f", "CmdType.SetDataForFunction call sites in the builders", nCmd, 1)
 	r.Floor("R6f", "FilterType.SetDataForFunction call sites in the builders", nFlt, 2)
 }
@@ -617,4 +618,230 @@ func c18PointerToInterface(p *Prog, r *Report) {
 		}
 	}
 	r.Floor("R6p", "data arguments of the reflective setters", n, 2)
+}
+
+// c18CustomJSONGuards: where a type rewrites one of its fields while encoding
+// and while decoding (TimePeriodType: absolute end time <-> remaining duration),
+// both rewrites must apply to the same values: the nil tests on the value's own
+// fields under which the encoder rewrites field F equal those under which the
+// decoder rewrites F. A one-sided condition turns the value into a different
+// one on the way (a fixed window becomes a relative one).
+func c18CustomJSONGuards(p *Prog, r *Report, rule string) {
+	r.Rule(rule, "a field rewritten by both MarshalJSON and UnmarshalJSON of a type is rewritten under the same presence conditions on the value's fields on both sides")
+	n := 0
+	for _, fn := range p.RepoFns("model") {
+		if fn.Name() != "MarshalJSON" || fn.Signature.Recv() == nil {
+			continue
+		}
+		nt := namedOf(fn.Signature.Recv().Type())
+		if nt == nil {
+			continue
+		}
+		un := p.Method("model", nt.Obj().Name(), "UnmarshalJSON")
+		if un == nil {
+			continue
+		}
+		st, ok := nt.Underlying().(*types.Struct)
+		if !ok {
+			continue
+		}
+		enc := jsonRewriteGuards(p, fn, st)
+		dec := jsonRewriteGuards(p, un, st)
+		for _, f := range sortedKeys(enc) {
+			d, both := dec[f]
+			if !both {
+				continue
+			}
+			n++
+			e := enc[f]
+			r.Check(rule, fmt.Sprintf("type:model.%s|field:%s", nt.Obj().Name(), f), e == d, p.Pos(fn.Pos()), fmt.Sprintf("encoder rewrites %s under {%s}; decoder rewrites it under {%s}", f, e, d))
+		}
+	}
+	r.Floor(rule, "fields rewritten on both sides", n, 1)
+}
+
+// jsonRewriteGuards: field name -> canonical presence condition ("EndTime!=nil,StartTime==nil")
+// under which fn (or a repository callee, depth 2) stores into that field of a value of struct type st.
+func jsonRewriteGuards(p *Prog, fn *ssa.Function, st *types.Struct) map[string]string {
+	res := map[string]string{}
+	var scan func(f *ssa.Function, depth int, inherited map[string]string)
+	merge := func(field string, facts map[string]string) {
+		var parts []string
+		for _, k := range sortedKeys(facts) {
+			parts = append(parts, k+facts[k])
+		}
+		s := strings.Join(parts, ",")
+		if old, ok := res[field]; ok && old != s {
+			s = old + " | " + s
+		}
+		res[field] = s
+	}
+	factsOf := func(f *ssa.Function, b *ssa.BasicBlock) map[string]string {
+		facts := map[string]string{}
+		for _, g := range Guards(b) {
+			if x, trueNil, ok := nilTest(g.Cond); ok {
+				if name := ownFieldName(x, st); name != "" {
+					if trueNil == g.Val {
+						facts[name] = "==nil"
+					} else {
+						facts[name] = "!=nil"
+					}
+				}
+				// err == nil of a repository callee: the callee's success conditions
+				if ex, isEx := x.(*ssa.Extract); isEx && trueNil == g.Val {
+					if c, isC := ex.Tuple.(*ssa.Call); isC {
+						if callee := c.Call.StaticCallee(); callee != nil && p.IsRepoFn(callee) && errLike(ex.Type()) {
+							for k, v := range successFacts(callee, st) {
+								facts[k] = v
+							}
+						}
+					}
+				}
+			}
+		}
+		return facts
+	}
+	scan = func(f *ssa.Function, depth int, inherited map[string]string) {
+		for _, b := range f.Blocks {
+			for _, ins := range b.Instrs {
+				switch x := ins.(type) {
+				case *ssa.Store:
+					fa, ok := x.Addr.(*ssa.FieldAddr)
+					if !ok {
+						continue
+					}
+					bs, ok := derefType(fa.X.Type()).Underlying().(*types.Struct)
+					if !ok || !types.Identical(bs, st) {
+						continue
+					}
+					// initialisation of the whole temp value (*t = T(temp)) is not a rewrite: only stores of call results
+					if _, isCall := x.Val.(*ssa.Call); !isCall {
+						continue
+					}
+					facts := factsOf(f, b)
+					for k, v := range inherited {
+						if _, ok := facts[k]; !ok {
+							facts[k] = v
+						}
+					}
+					merge(fieldOfAddr(fa).Name(), facts)
+				case *ssa.Call:
+					if depth >= 2 {
+						continue
+					}
+					callee := x.Call.StaticCallee()
+					if callee == nil || !p.IsRepoFn(callee) || callee.Blocks == nil {
+						continue
+					}
+					// only helpers that receive the value
+					takes := false
+					for _, a := range x.Call.Args {
+						if bs, ok := derefType(a.Type()).Underlying().(*types.Struct); ok && types.Identical(bs, st) {
+							takes = true
+						}
+					}
+					if takes {
+						inh := factsOf(f, b)
+						for k, v := range inherited {
+							if _, ok := inh[k]; !ok {
+								inh[k] = v
+							}
+						}
+						scan(callee, depth+1, inh)
+					}
+				}
+			}
+		}
+	}
+	scan(fn, 0, map[string]string{})
+	return res
+}
+
+func derefType(t types.Type) types.Type {
+	if pt, ok := t.Underlying().(*types.Pointer); ok {
+		return pt.Elem()
+	}
+	return t
+}
+
+// ownFieldName: x is a load of a field of a value whose struct type is st.
+func ownFieldName(x ssa.Value, st *types.Struct) string {
+	for d := 0; d < 4; d++ {
+		switch y := x.(type) {
+		case *ssa.UnOp:
+			x = y.X
+			continue
+		case *ssa.FieldAddr:
+			if bs, ok := derefType(y.X.Type()).Underlying().(*types.Struct); ok && types.Identical(bs, st) {
+				return fieldOfAddr(y).Name()
+			}
+			return ""
+		case *ssa.Field:
+			if bs, ok := y.X.Type().Underlying().(*types.Struct); ok && types.Identical(bs, st) {
+				return fieldOfVal(y).Name()
+			}
+			return ""
+		}
+		break
+	}
+	return ""
+}
+
+// successFacts: presence conditions on the fields of st that hold at every
+// return of callee whose error result is the constant nil.
+func successFacts(callee *ssa.Function, st *types.Struct) map[string]string {
+	var res map[string]string
+	for _, b := range callee.Blocks {
+		ret, ok := b.Instrs[len(b.Instrs)-1].(*ssa.Return)
+		if !ok || len(ret.Results) == 0 {
+			continue
+		}
+		last := ret.Results[len(ret.Results)-1]
+		if c, isC := last.(*ssa.Const); !isC || !c.IsNil() {
+			// a forwarded error may be nil as well: such returns also count as possible successes;
+			// a freshly made error, or one tested to be non-nil, is a failure
+			if _, isConstErr := last.(*ssa.MakeInterface); isConstErr {
+				continue
+			}
+			if c, isCall := last.(*ssa.Call); isCall {
+				if callee := c.Call.StaticCallee(); callee != nil && (fnPkgPath(callee) == "errors" || fnPkgPath(callee) == "fmt") {
+					continue
+				}
+			}
+			definitelyErr := false
+			for _, g := range Guards(b) {
+				if x, trueNil, ok := nilTest(g.Cond); ok && x == last && trueNil != g.Val {
+					definitelyErr = true
+				}
+			}
+			if definitelyErr {
+				continue
+			}
+		}
+		facts := map[string]string{}
+		for _, g := range Guards(b) {
+			if x, trueNil, ok := nilTest(g.Cond); ok {
+				if name := ownFieldName(x, st); name != "" {
+					if trueNil == g.Val {
+						facts[name] = "==nil"
+					} else {
+						facts[name] = "!=nil"
+					}
+				}
+			}
+		}
+		if res == nil {
+			res = facts
+		} else {
+			for k, v := range res {
+				if facts[k] != v {
+					delete(res, k)
+				}
+			}
+		}
+	}
+	if res == nil {
+		res = map[string]string{}
+	}
+	return res
 }
